@@ -88,6 +88,19 @@ class SymVal(zprox.ZNum):
             return True
         return SymBool(z3.IsInt(self.t))
 
+    def __bool__(self):
+        # truthiness of a stored value (`if value:`): in the call-sequence unit both outcomes are explored by re-running the sequence
+        # (TRUTH[0] None = first run, record that it was asked; True/False = forced outcome: the value is an unconstrained fresh symbol,
+        # so "value == 0" and "value != 0" are both satisfiable)
+        if TRUTH[0] is None:
+            TRUTH_ASKED[0] = True
+            return True
+        return TRUTH[0]
+
+
+TRUTH = [None]
+TRUTH_ASKED = [False]
+
 
 DFUN = z3.Function('D', z3.IntSort(), z3.RealSort())
 
@@ -326,7 +339,7 @@ def run_sequences(u, P, tier='quick'):
         ops.append(('addpar', nm, True, True))
         ops.append(('addpar', nm, False, False))
     ops += [('set_parameters', ('a', 'b')), ('set_parameters', ('c',)), ('set_varylist', ('a', 'b')), ('set_varylist', ('b', 'a')), ('set_varylist', ('c', 'a')),
-            ('set_variable_values',), ('update_other',), ('update_yourself',)]
+            ('set_variable_values',), ('update_other',), ('update_yourself',), ('update_yourself', 0), ('update_yourself', 0.0), ('update_yourself', '')]
     inits = [lambda: P.parameters(), lambda: _init_full(P, fresh)]
     nseq = 0
     bad = []
@@ -336,23 +349,35 @@ def run_sequences(u, P, tier='quick'):
                 if L >= 3 and ii == 0 and seq[0][0] not in ('addpar',):
                     continue        # from the empty object only sequences that start by adding a parameter are interesting at length 3
                 nseq += 1
-                p = mk()
-                model = {'d': dict(p.parameters), 'vary': list(p.varylist), 'varl': list(p.variable_list)}
-                ok = True
-                for op in seq:
-                    try:
-                        ok = apply_both(P, p, model, op, fresh)
-                    except AssertionError:
-                        ok = 'assert'
-                    if ok is not True:
+                for truth in (None, False):
+                    if truth is False and not TRUTH_ASKED[0]:
+                        break           # no stored value was used as a condition on the first run: nothing to fork on
+                    TRUTH[0] = truth
+                    if truth is None:
+                        TRUTH_ASKED[0] = False
+                    p = mk()
+                    model = {'d': dict(p.parameters), 'vary': list(p.varylist), 'varl': list(p.variable_list)}
+                    ok = True
+                    mism = None
+                    for op in seq:
+                        try:
+                            ok = apply_both(P, p, model, op, fresh)
+                        except AssertionError:
+                            ok = 'assert'
+                        if ok is not True:
+                            break
+                        # the observers run after EVERY call, not only at the end: a getter must not change what later calls return
+                        mism = compare(p, model)
+                        if mism:
+                            break
+                    if ok == 'assert':
+                        break           # precondition of the API (assert) not met: sequence not admissible
+                    if mism:
+                        bad.append('%s%s: %s' % (seq, ' [stored values falsy]' if truth is False else '', mism))
                         break
-                if ok == 'assert':
-                    continue        # precondition of the API (assert) not met: sequence not admissible
-                mism = compare(p, model)
-                if mism:
-                    bad.append('%s: %s' % (seq, mism))
-                    if len(bad) > 5:
-                        break
+                TRUTH[0] = None
+                if len(bad) > 5:
+                    break
     u.paths = nseq
     u.prove('C19/sequences', [], z3.BoolVal(not bad), replay=lambda m: (True, {'kind': 'seq', 'example': bad[:1]}, '; '.join(bad[:2])),
             detail='%d call sequences (length <= 3, two initial objects): object agrees with the dictionary model after every sequence' % nseq, sample=True)
@@ -432,7 +457,7 @@ def apply_both(P, p, model, op, fresh):
             model['d']['__bad__'] = 1
     elif kind == 'update_yourself':
         o = Other()
-        v = fresh()
+        v = fresh() if len(op) == 1 else op[1]
         o.b = v
         p.update_yourself(o)
         if 'b' in model['d']:
